@@ -164,6 +164,9 @@ type c08Leave struct {
 	Updates      int           `json:"updates_before"`
 	Replay       bool          `json:"replay_old_alive"`
 	SuspectPeers bool          `json:"leaver_suspects_all_peers"` // every peer is only a suspect in the leaver's table when it leaves
+	// an UpdateNode call is already inside the application's NodeMeta callback when Leave starts and
+	// only continues after Leave has returned
+	UpdateInFlight bool `json:"update_node_in_flight_across_leave,omitempty"`
 }
 
 func runC08Leave(run *Run, seed int64, sc c08Leave, rng *rand.Rand) (out []*c01Result, logs map[string][]string) {
@@ -290,6 +293,31 @@ func runC08Leave(run *Run, seed int64, sc c08Leave, rng *rand.Rand) (out []*c01R
 			time.Sleep(time.Millisecond) // the accusation is processed while Leave sits between reading its incarnation and applying the departure
 		})
 	}
+	var metaGate chan struct{}
+	if sc.UpdateInFlight {
+		metaGate = make(chan struct{})
+		entered := make(chan struct{})
+		X.Del.mu.Lock()
+		X.Del.MetaGate, X.Del.MetaEntered = metaGate, entered
+		X.Del.mu.Unlock()
+		X.Del.SetMeta([]byte("meta-of-an-update-that-was-overtaken-by-leave"))
+		go func() { _ = X.ML().UpdateNode(2 * time.Second) }()
+		parked := false
+		for i := 0; i < 100 && !parked; i++ {
+			Settle(time.Millisecond)
+			select {
+			case <-entered:
+				parked = true
+			default:
+			}
+		}
+		if !parked {
+			fail("harness/update-not-parked", "UpdateNode never reached the NodeMeta callback")
+			close(metaGate)
+			return
+		}
+		run.Cell("leave", "update-in-flight")
+	}
 	leaveInc := X.ML().VerifDump().Incarnation
 	var leaveErr error
 	var took time.Duration
@@ -307,6 +335,14 @@ func runC08Leave(run *Run, seed int64, sc c08Leave, rng *rand.Rand) (out []*c01R
 		return
 	}
 	memberlist.VerifSetPoint(nil)
+	if metaGate != nil {
+		// Leave has returned: now the parked UpdateNode continues
+		X.Del.mu.Lock()
+		X.Del.MetaGate = nil
+		X.Del.mu.Unlock()
+		close(metaGate)
+		Settle(10 * time.Millisecond)
+	}
 	if sc.Race != "" {
 		if !raced {
 			fail("harness/failpoint-not-reached", "the failpoint inside Leave was never reached")
@@ -485,6 +521,9 @@ func TestC08(t *testing.T) {
 		if i%5 == 1 {
 			sc.SuspectPeers = true
 		}
+		if i%6 == 2 && sc.Mode == "responsive" {
+			sc.UpdateInFlight = true
+		}
 		// every third scenario exercises the accusation race
 		if i%3 == 0 {
 			sc.Race = []string{"suspect", "dead"}[(i/3)%2]
@@ -517,6 +556,7 @@ func TestC08(t *testing.T) {
 				run.Require(fmt.Sprintf("race|%s|%+d", k, r))
 			}
 		}
+		run.Require("leave|update-in-flight")
 	}
 	run.Complete()
 	if run.Violations() > 0 {
